@@ -73,6 +73,18 @@ M = {
  "C13b-m2": ("C13", "both Pippenger copies drop terms whose point is None instead of returning None", "a batch of at least 95 entries with an undecodable R and S = H(R,A,M) * a", {"C13": "caught by the crafted undecodable-R family added on reading this change; C04's optional_multiscalar_mul with a None at n = 190 sees it too"}),
  "C17b-m1": ("C17", "CofactorGroup::is_torsion_free for EdwardsPoint tests X = 0 and T = 0 (the 2-torsion point passes)", "group feature; a point with a 2-torsion component", {}),
  "C17b-m2": ("C17", "PrimeField::from_repr_vartime reduces before its canonicity check", "group feature; a non-canonical encoding with the top bit clear (l, l+1 ...)", {}),
+ "C01c-m1": ("C01", "u32 as_bytes: one shift of the q carry chain is 25 instead of 26", "32-bit build; a value within 2^127 of p (-1, -2 ...): as_bytes returns h + 19", {}),
+ "C01c-m2": ("C01", "fiat_u64 Add drops the carry pass (a loose element relabelled tight)", "fiat build; an operand held at or above p, or two additions in a row before a multiplication", {}),
+ "C02c-m1": ("C02", "Scalar::is_canonical rewritten as a borrow chain that tests s <= l", "the single input s = l", {}),
+ "C02c-m2": ("C02", "From<u128> for Scalar drops the top byte", "x >= 2^120", {}),
+ "C03c-m1": ("C03", "EdwardsPoint::conditional_select takes T from (a.T, b.Z)", "choice = 1 and a later operation that reads T", {}),
+ "C03c-m2": ("C03", "Neg for &ProjectiveNielsPoint forgets to negate T2d", "serial scalar multiplication with a negative digit", {}),
+ "C04c-m1": ("C04", "LookupTableRadix64 built one entry short (ConversionRange 0..30)", "radix-64 basepoint table and a recoding with the digit -32", {}),
+ "C04c-m2": ("C04", "vector Pippenger drops None points instead of returning None", "vector backend, at least 190 terms, a None input", {}),
+ "C06c-m1": ("C06", "group::Group::is_identity for RistrettoPoint compares the Edwards representative (same site as C06-m2, found independently)", "group feature; an identity element with a 4-torsion component", {"C06": "not applicable (driver built without the group feature); C17 is the check for the trait implementations"}),
+ "C06c-m2": ("C06", "two bytes of RISTRETTO_BASEPOINT_COMPRESSED transposed (still a valid encoding of another element)", "a code path that uses the compressed constant", {}),
+ "C09c-m1": ("C09", "verify_prehashed_strict rejects only R = identity and weak keys (same idea as C09-m2, found independently)", "digest feature, prehashed strict entry point, small-order non-identity R with a mixed-order key", {}),
+ "C09c-m2": ("C09", "VerifyingKey::try_from(&[u8]) stores the canonical re-encoding instead of the supplied bytes", "a slice-based constructor and a non-canonical but decodable key encoding", {"C09": "caught by the comparison of every constructor's stored bytes added on reading this change (before: only is_ok of the two constructors was compared)"}),
  "C10-own1": ("C10", "LookupTable::select reads the entry by direct index (own seeded change from the design's appendix, not from a sub-agent)", "any secret digit", {"C10": "caught (lock-step traces of ed.mul_base diverge)"}),
 }
 # measured results: seeded/RESULTS.log (appended by tools/run_seeded.sh); the latest line per (change, check, tier) counts
@@ -103,7 +115,7 @@ for sid, (prop, what, needs, res) in sorted(M.items()):
     cl = os.path.join(d, "confirm.log")
     if os.path.exists(cl):
         t = open(cl).read()
-        conf = "confirmed in a scratch worktree: " + "; ".join(x.strip() for x in re.findall(r"(Summary.*|test result: .*|exit status: .*)", t))[:600]
+        conf = "confirmed in a scratch worktree: " + "; ".join(x.strip() for x in re.findall(r"(Summary.*|test result: .*|FAIL: .*|PASS: .*)", t))[:600]
     elif sid.endswith("own1"):
         conf = "own change; applies and builds; no separate demonstration (the check's replay is the demonstration)"
     meta = dict(id=sid, breaks_property=prop, change=what, needs_to_manifest=needs, origin="own" if "own" in sid else "independent sub-agent working only from the property text in a scratch worktree",
